@@ -30,6 +30,8 @@ func main() {
 		corr(os.Args[2:])
 	case "oracle":
 		oracle(os.Args[2:])
+	case "cli":
+		cli(os.Args[2:])
 	case "replay":
 		replay(os.Args[2:])
 	default:
@@ -103,6 +105,7 @@ type failure struct {
 	Key    string     `json:"key"`
 	What   string     `json:"what"`
 	Flags  [3]bool    `json:"flags"` // names, accounts, corrections
+	CLI    int        `json:"cli,omitempty"` // achcli run: bit set of -mask.names, -mask.accounts, -mask.corrections, -mask
 	Case   secretCase `json:"case"`
 	Secret string     `json:"secret"`
 }
@@ -537,13 +540,31 @@ func replay(args []string) {
 		os.Exit(2)
 	}
 	var rp struct {
-		Input secretCase `json:"input"`
+		Input   secretCase `json:"input"`
+		Failure struct {
+			CLI int `json:"cli"`
+		} `json:"failure"`
+		Key string `json:"key"`
 	}
 	if err := json.Unmarshal(b, &rp); err != nil || rp.Input.Class == "" {
 		fmt.Println("replay file carries no input (obligation / correspondence failure): nothing to run")
 		os.Exit(0)
 	}
 	fails := checkCase(rp.Input)
+	if strings.HasPrefix(rp.Key, "cli:") {
+		bin := os.Getenv("VERIF_ACHCLI")
+		dir, err := os.MkdirTemp("", "c20cli")
+		if bin == "" || err != nil {
+			fmt.Fprintln(os.Stderr, "replay of an achcli run needs VERIF_ACHCLI")
+			os.Exit(2)
+		}
+		defer os.RemoveAll(dir)
+		only := -1
+		if rp.Failure.CLI > 0 {
+			only = rp.Failure.CLI
+		}
+		fails, _ = cliCheck(bin, dir, rp.Input, only)
+	}
 	for _, f := range fails {
 		j, _ := json.Marshal(f)
 		fmt.Println(string(j))
